@@ -239,12 +239,15 @@ class Oracle:
         self.has_zero = any(p == 0 for p in self.probs)
         self.positive = least_model(rules, [f for f in self.inputs if pr[f] > 0])
 
-    def eval_models(self, models):
-        """Truth table (mask over worlds) of an SDD handle given as the manager's list of partial assignments."""
+    def eval_models(self, models, perm=None):
+        """Truth table (mask over worlds) of an SDD handle given as the manager's list of partial assignments
+        (perm renames the implementation's variable ids to positions in the sorted seed order)."""
         m = 0
         for cl in models:
             x = self.full
             for var, pol in cl:
+                if perm is not None and var < len(perm):
+                    var = perm[var]
                 if var >= self.n:
                     x = 0 if pol else x       # a variable that is no seed is false in every world
                     continue
@@ -265,9 +268,11 @@ def canon_impl(r):
     return out
 
 
-def clause_masks(cl):
+def clause_masks(cl, perm=None):
     pos = neg = 0
     for v, pol in cl:
+        if perm is not None:
+            v = perm[v]
         if pol:
             pos |= 1 << v
         else:
@@ -568,8 +573,15 @@ def evaluate_programs(ctx, binpath, cases, stream, coq_spec_sample=0):
             mm = m[mode]
             # ---------- implementation against the Spec (world enumeration) ----------
             bad = None
-            if i["seed_order"] != orc.seed_order:
-                bad = {"what": "seed numbering is not the sorted order of the seed triples", "impl": i["seed_order"], "spec": orc.seed_order}
+            # variable ids are an internal numbering: any numbering that lists every seed triple once is acceptable;
+            # tags are compared after renaming impl variable v to the position of seed_order[v] in the sorted order
+            perm = None
+            if sorted(i["seed_order"]) != orc.seed_order:
+                bad = {"what": "seed numbering does not enumerate every seed triple exactly once", "impl": i["seed_order"], "spec": orc.seed_order}
+            else:
+                perm = [orc.seed_order.index(t) for t in i["seed_order"]]
+            if bad is not None:
+                pass
             elif len(i["new"]) != len(set(i["new"])):
                 bad = {"what": "returned new facts contain duplicates", "impl": i["new"]}
             elif mode in ("dnf", "sdd"):
@@ -587,7 +599,7 @@ def evaluate_programs(ctx, binpath, cases, stream, coq_spec_sample=0):
                             break
                     if bad is None and mode == "sdd":
                         for f in top:
-                            if orc.eval_models(i["tag"][f]) != orc.tt[f]:
+                            if orc.eval_models(i["tag"][f], perm) != orc.tt[f]:
                                 bad = {"what": "sdd mode: the tag's Boolean function differs from derivability in some world", "fact": f}
                                 break
             elif naf:
@@ -631,17 +643,15 @@ def evaluate_programs(ctx, binpath, cases, stream, coq_spec_sample=0):
             diff = None
             if i["all"] != mm["all"]:
                 diff = "stored facts"
-            elif i["explicit"] != mm["explicit"]:
-                diff = "facts with an explicit tag"
             else:
                 for f in i["all"]:
                     if not close(i["prob"][f], mm["prob"][f]):
                         diff = "probability of %s: impl %r model %s" % (f, i["prob"][f], mm["prob"][f])
                         break
-                    if mode == "dnf" and sorted(clause_masks(cl) for cl in i["tag"][f]) != mm["tag"][f]:
+                    if mode == "dnf" and sorted(clause_masks(cl, perm) for cl in i["tag"][f]) != mm["tag"][f]:
                         diff = "DNF tag of %s" % (f,)
                         break
-                    if mode == "sdd" and orc.eval_models(i["tag"][f]) != mm["tag"][f][0][0]:
+                    if mode == "sdd" and orc.eval_models(i["tag"][f], perm) != mm["tag"][f][0][0]:
                         diff = "truth table of the SDD tag of %s" % (f,)
                         break
                     if mode == "bool" and [(1 if i["tag"][f] else 0, 0)] != mm["tag"][f]:
